@@ -85,6 +85,11 @@ def alphabet(M):
     add("MQSTAR(M(y=...),qs=1)", lambda: M.MQSTAR(M.M(y=...), qs=1), '(?:(?P<y>.))*', ('node', 'y'))
     add("MQPLUS.NG(M(z='a'),qn=True)", lambda: M.MQPLUS.NG(M.M(z='a'), qn=True), '(?:(?P<z>a))+?', ('node', 'z'))
     add("MQ(M(m=...),0,2,qm=1)", lambda: M.MQ(M.M(m=...), 0, 2, qm=1), '(?:(?P<m>.)){0,2}', ('node', 'm'))
+    # tagged alternatives whose sub-pattern supplies nothing but a static tag (the alternative's tag is added to what the child
+    # returned): alone, under a quantifier (regex: group of the last iteration) and inside a sub-sequence
+    add("MOR(o=M('a',so=1),p='b')", lambda: M.MOR(o=M.M('a', so=1), p='b'), '(?:(?P<o>a)|(?P<p>b))', ('node', 'o'))
+    add("MQSTAR(MOR(r=M(...,sr=1)))", lambda: M.MQSTAR(M.MOR(r=M.M(..., sr=1))), '(?:(?P<r>.))*', ('node', 'r'))
+    add("MQPLUS(['a',MOR(s=M(...,ss=1))])", lambda: M.MQPLUS(['a', M.MOR(s=M.M(..., ss=1))]), '(?:a(?P<s>.))+', ('node', 's'))
     return A
 
 
